@@ -724,6 +724,29 @@ example :
     (serverLoopC [("M", mech)] {doneAt := some 0} none 0 peer).authn = true := by
   decide
 
+/-! ### the permission callback and mechanisms other than PLAIN (known finding)
+
+Full strength would be: *for every configured mechanism* an authenticated exchange holds an
+accepting verdict of the application's permission callback —
+
+    ∀ cfg peer, (serverNeg cfg peer).authn = true → ∃ p ∈ (serverNeg cfg peer).perms, p.verdict = true
+
+`sasl.go` leaves consulting the callback to the mechanism, and `mellium.im/sasl`'s ANONYMOUS
+(observed through the real mechanism on every run: `srv-real-ANONYMOUS`) completes without
+consulting it.  So the statement is proved for PLAIN (`C03_server_plain_permission`, the
+partial theorem) and fails in general: -/
+
+/-- ANONYMOUS as observed: one `Step`, done, no data, the callback is never called -/
+def anonymousServer : Mech := fun _ => { kind := .done }
+
+theorem C03_server_permission_any_mechanism_fails :
+    ¬ (∀ (cfg : List (String × Mech)) (peer : List SEv), (serverNeg cfg peer).authn = true →
+        ∃ p ∈ (serverNeg cfg peer).perms, p.verdict = true) := by
+  intro h
+  have := h [("ANONYMOUS", anonymousServer)] [.auth "ANONYMOUS" .empty] (by decide)
+  revert this
+  decide
+
 /-! ### a `Step` that panics -/
 
 /-- **A failed `Step` on the receiving side** — an error other than `sasl.ErrAuthn`, or a panic
